@@ -493,6 +493,9 @@ def temporal_order_rule(F, rep):
                 rep.ok(rid, key, "16 ordering combinations agree with %s x, x %s hi" % ("lo <=" if lc else "lo <", "<=" if rc else "<"))
     # the std comparison traits of the temporal types (used by `<`, `<=`, ... and by `=` on these kinds) must agree with compare() as well
     wrappers = {n for n in F.hir if re.match(r"^dmntk_feel::temporal::((?:\w+::)*(?:FeelDate|FeelTime|FeelDateTime))::(equal|before|before_or_equal|after|after_or_equal)$", n)}
+    # private methods of the three types (shared delegation helpers such as `relation(&self, other, helper)`, `at_midnight_utc`) are expanded as well
+    wrappers |= {n for n, hh in F.hir.items() if re.match(r"^dmntk_feel::temporal::((?:\w+::)*(?:FeelDate|FeelTime|FeelDateTime))::\w+$", n) and hh.get("kind") in ("method", "fn", "assoc_fn")
+                 and hh.get("vis") != "pub" and F.fns.get(n, {}).get("vis") != "pub"}
 
     def make_hook2(o):
         flip = {"Less": "Greater", "Greater": "Less", "Equal": "Equal", None: None}
@@ -544,9 +547,20 @@ def temporal_order_rule(F, rep):
             continue
         nw += 1
         meth = m.group(2)
-        fl = hirflow.Flow(h)
+        owner = name.rsplit("::", 1)[0]
+
+        def private_method(callee, owner=owner, name=name):
+            """private methods of the same type are expanded at their call sites (a shared `relation(&self, other, helper)` that applies the helper it is given)"""
+            hh = F.hir.get(callee)
+            if hh is None or callee == name or not callee.startswith(owner + "::") or F.fns.get(callee, {}).get("vis") == "pub" or hh.get("vis") == "pub":
+                return None
+            return hh
+        fl = hirflow.Flow(h, inline=private_method)
         calls = [(c, a) for c, a, _, _, _ in fl.calls if c in helpers.values()]
         key = "wrapper:%s::%s" % (m.group(1).split("::")[-1], meth)
+        if not calls:
+            rep.undecided(rid, key, "%s: no call of a temporal comparison helper was found (the delegation has a form the rule does not follow)" % name)
+            continue
         if len(calls) != 1 or calls[0][0] != helpers[meth]:
             rep.violation(rid, key, "%s does not delegate to the temporal helper `%s` exactly once (calls: %s)" % (name, meth, [c for c, _ in calls]), "%s:%s" % (h["file"], h["line"]))
             continue
